@@ -567,8 +567,8 @@ def process_fn_like(ex, sig, body, subs, idbase, ret_default="r"):
                     if len(cands) == 1:
                         lp = cands[0]
                         n = loops.index(lp) + 1
-                    else:
-                        raise GenError("%s: loop %d header changed (pinned %s, %d other candidates) (template line %d)" % (ex.name, n, opts["hh"], len(cands), d.lineno))
+                    # else: the header text itself was edited (e.g. a range bound): keep the ordinal — the pin only helps
+                    # when loops were added or removed before this one, it must never hide an edit of the loop it names
             ex.loop_headers = getattr(ex, "loop_headers", {})
             ex.loop_headers[d.lineno] = hashlib.sha256(re.sub(r"\s+", " ", body[lp["kw_start"]:lp["head_end"]]).strip().encode()).hexdigest()[:8]
             if "kw" in opts and opts["kw"] != lp["kw"]:
